@@ -325,3 +325,21 @@ package ckks
 //@   let g = uf_gk(contentid(eval.Evaluator.EvaluationKeySet), ge)
 //@   let I = contentid(eval.Evaluator.automorphismIndex[ge])
 //@   ensures implies(isnil(err), val(opOut.Value[0]) == uf_automidx(old(val(op0.Value[0])) + uf_gp0(old(val(op0.Value[1])), g), I) && val(opOut.Value[1]) == uf_automidx(uf_gp1(old(val(op0.Value[1])), g), I))
+
+// ---- Average (property C11): the averaged ciphertext describes itself as the INPUT does (scale, packing, domain)
+// ---- and is at the common level, whatever the receiver held before (finding F61); the sums themselves are the
+// ---- rotate-and-add circuit (a leaf here)
+//@ afunc Evaluator.InnerSum
+//@   trusted the rotate-and-add circuit is not under contract (C11: not decided); as called by Average - in place, input = output - it writes the two components of the ciphertext and nothing else of it
+//@   assigns opOut.Value[0], opOut.Value[1]
+
+//@ afunc Evaluator.Average
+//@   property C11
+//@   bounded two shapes (input at level 1, receiver at level 2 / the same ciphertext), the pre-multiplication loop over the rows unwound; the clauses do not depend on the number of rows
+//@   unwind 4
+//@   requires len(ctIn.Value) == 2 && len(opOut.Value) == 2
+//@   case len(ctIn.Value[0].Coeffs) == 2 && len(ctIn.Value[1].Coeffs) == 2 && len(opOut.Value[0].Coeffs) == 3 && len(opOut.Value[1].Coeffs) == 3
+//@   case len(ctIn.Value[0].Coeffs) == 2 && len(ctIn.Value[1].Coeffs) == 2 ; alias opOut = ctIn
+//@   ensures implies(isnil(err), sameval(opOut.MetaData.PlaintextMetaData.Scale, old(ctIn.MetaData.PlaintextMetaData.Scale)) && sameval(opOut.MetaData.PlaintextMetaData.LogDimensions, old(ctIn.MetaData.PlaintextMetaData.LogDimensions)))
+//@   ensures implies(isnil(err), iff(opOut.MetaData.CiphertextMetaData.IsNTT, old(ctIn.MetaData.CiphertextMetaData.IsNTT)))
+//@   ensures implies(isnil(err), len(opOut.Value[0].Coeffs) == 2 && len(opOut.Value[1].Coeffs) == 2)
